@@ -623,13 +623,16 @@ func streamOps(c *ctx) {
 		}
 		// the order of a key_ops list carries no meaning: half of the lists are reversed or rotated
 		if len(ops) > 1 {
-			switch (i / 3) % 4 {
+			switch (i / 7) % 4 {
 			case 1:
 				rev := make([]int, len(ops))
 				for j, o := range ops {
 					rev[len(ops)-1-j] = o
 				}
 				ops = rev
+				if !exhaustive && (i/28)%2 == 0 {
+					rep = 1 + (i/56)%2 // the typed forms (key.Ops, []any of int), which nothing rebuilds on the way
+				}
 			case 3:
 				ops = append(append([]int{}, ops[1:]...), ops[0])
 			}
